@@ -54,7 +54,10 @@ def seeded_table():
             else:
                 verdict = "**missed**"
         if m.get("strengthened"):
-            verdict += "; " + m["strengthened"]
+            verdict += "; then strengthened: " + str(m["strengthened"])[:300].replace("|", "\\|").replace("\n", " ")
+        if m.get("verif_after"):
+            va = m["verif_after"]
+            verdict += "; re-run: " + (va if isinstance(va, str) else json.dumps(va))[:220].replace("|", "\\|").replace("\n", " ")
         detail = (v.get("detail") or [""])[0]
         detail = re.sub(r"^\[C\d+\] ", "", detail)[:160].replace("|", "\\|")
         rows.append("| %s | %s | %s | %s | %s |" % (name, m.get("summary", "").replace("|", "\\|")[:260],
